@@ -90,11 +90,11 @@ EXTRA = {
  "C12": " Unions with four fixed right operands are operations of the cuckoo BFS; differential oracle 'a failed insert / union is a no-op for every continuation of two further operations' on near-full states of both filters (no state key involved: finds state the BFS key cannot see), 10^7 continuations in quick.",
  "C13": " Real-hasher runs first (default SipHash, 4 shapes x 2 key families: len, Full only at capacity, no false negatives). One-step look-ahead from every arrival at an already known key (tables up to 4 slots quick / 8 thorough).",
  "C14": " Real-hasher runs first (default SipHash, 4 shapes x 2 key families x 2 RNG policies: len, no false negatives, deleting everything stored empties the table). Unions with four fixed right operands are operations of the BFS; one-step look-ahead from every arrival at an already known key for kick budgets <= 1 (quick) / <= 2 (thorough); l_fingerprint = 64 with the wrap-around hash u64::MAX.",
- "C15": " cdf / quantile as the very first read of a fresh clone equal the same call after count(), bit for bit. Empty digests: quantile at 0, 0.25, 0.5, 1 is NaN and cdf at -inf..+inf is 0. The same trees one level shallower and the n = 100 structured digests with every weight multiplied by 2^-900 and by 2^900.",
- "C16": " The same trees one level shallower and long histories with every weight multiplied by 2^-900 and by 2^900.",
+ "C15": " cdf / quantile as the very first read of a fresh clone equal the same call after count(), bit for bit. Empty digests: quantile at 0, 0.25, 0.5, 1 is NaN and cdf at -inf..+inf is 0. The same trees one level shallower and the n = 100 structured digests with every weight multiplied by 2^-900 and by 2^900; trees with every value multiplied by 2^-900 / 2^900.",
+ "C16": " The same trees one level shallower and long histories with every weight multiplied by 2^-900 and by 2^900; trees with every value multiplied by 2^-900 / 2^900.",
  "C17": " Real-hasher order / repetition invariance first (3000 keys, b = 4, 7, 12). Extend<T> and Extend<&T> == add loop for b in {4, 9, 16} (all sequences to length 4-5 over three elements of one register with three ranks plus one other, every split, also after clear); single extend calls of 1..300 distinct items delivered as Vec / filter over junk (inexact size_hint) / from_fn, for all five Extend structures (C17, C02, C01, C18, C10); whole-register-file sequences for b = 4, 5, 6 (4 orders x 4 rank patterns up to the maximal rank) compared with the specification after every add.",
  "C18": " Extend == add loop for stream 0..n, n <= 4k+6, every split, three scripted RNG policies, fresh and after 4k+3 adds + clear; one-step look-ahead from every arrival at a known key.",
- "C19": " clone() and Clone::clone_from (onto an instance of another configuration) copies run in lockstep with the original (depth 3 at every node; 300 operations after the 1000-operation histories; 3000 + 2000 well-spread inserts for every T-digest scale function); getters of fresh / cleared instances report the constructor parameters for all nine structures; HyperLogLog b = 4, 5, 6 with every register filled, cleared and re-fed in lockstep with a fresh sketch; every operation of the trees is also executed on an instance that replayed the history without any clone (a structure must not behave differently because copies exist).",
+ "C19": " clone() and Clone::clone_from (onto an instance of another configuration) copies - targets of another shape with another hasher and with the same hasher - run in lockstep with the original (depth 3 at every node; 300 operations after the 1000-operation histories; 3000 + 2000 well-spread inserts for every T-digest scale function); getters of fresh / cleared instances report the constructor parameters for all nine structures; HyperLogLog b = 4, 5, 6 with every register filled, cleared and re-fed in lockstep with a fresh sketch; every operation of the trees is also executed on an instance that replayed the history without any clone (a structure must not behave differently because copies exist).",
 }
 
 NOT_YET = {}
